@@ -33,3 +33,4 @@ def run(ctx):
     dmlrules.index_value_is_row_key(ctx, "X6.INDEX-VALUE")
     dmlrules.undo_restores_entry(ctx, "X7.UNDO-RESTORES-ENTRY")
     dmlrules.modified_set_complete(ctx, "X8.MODIFIED-SET-COMPLETE")
+    dmlrules.key_cleared_per_row(ctx, "X9.KEY-CLEARED-PER-ROW")
